@@ -110,6 +110,29 @@ def generated_vftable_refs(rng):
     return {"a.pyxis": "\n".join(a) + "\n", "b.pyxis": b}
 
 
+def retried_owner(rng):
+    """a type with a vftable block that has to be attempted more than once (it embeds another polymorphic type by
+    value), whose virtual functions name types that an earlier, failed attempt saw differently: the generated
+    `<T>Vftable` of the embedded type (also hand-written in an imported module), which in the own module
+    is generated only once that type has been attempted -- the result must be the one of the successful attempt,
+    whatever was tried before"""
+    inner, outer = rng.choice([("Node", "Graph"), ("Item", "Bag"), ("Part", "Whole")])
+    nfn = rng.randint(1, 3)
+    fns = ";\n".join("        pub fn f%d(&mut self%s)" % (k, ", x: u32" if rng.random() < 0.5 else "") for k in range(nfn))
+    slots = ",\n".join("    pub s%d: *const void" % k for k in range(nfn + rng.randint(0, 2)))
+    compat = "pub type %sVftable {\n%s,\n}\n" % (inner, slots)
+    sig = rng.choice(["table: *const %sVftable" % inner, "a: u32, table: *mut %sVftable" % inner, "tables: *const *const %sVftable" % inner])
+    ret = rng.choice(["", " -> *const %sVftable" % inner])
+    items = [
+        "pub type %s {\n    vftable {\n%s;\n    },\n    pub id: u32,\n}" % (inner, fns),
+        "pub type %s {\n    vftable {\n        pub fn install(&mut self, %s)%s;\n    },\n    pub root: %s,\n}" % (outer, sig, ret, inner),
+    ]
+    if rng.random() < 0.5:
+        items.append("pub type Extra { pub n: u32, pub first: *mut %s }" % outer)
+    rng.shuffle(items)
+    return {"compat.pyxis": compat, "scene.pyxis": "use compat;\n" + "\n".join(items) + "\n"}
+
+
 def runner(pid, prop, tier, seed, scratch, replay=None):
     rng = random.Random(seed)
     ninputs, budget, nfresh = (40, 24, 4) if tier == "quick" else (250, 100, 8)
@@ -133,6 +156,8 @@ def runner(pid, prop, tier, seed, scratch, replay=None):
             inputs.append((case_twins(random.Random(seed * 5519 + j)), 4 if j % 2 == 0 else 8, None))
         for j in range(6 if tier == "quick" else 40):
             inputs.append((generated_vftable_refs(random.Random(seed * 3571 + j)), 4 if j % 2 == 0 else 8, None))
+        for j in range(4 if tier == "quick" else 30):
+            inputs.append((retried_owner(random.Random(seed * 2741 + j)), 4 if j % 2 == 0 else 8, None))
         i = 0
         while len(inputs) < ninputs + len(base):
             files, exp = gen.generate(seed * 100003 + i, 4 if i % 2 == 0 else 8, PROFILE)
